@@ -194,8 +194,13 @@ def entity_reader(
         num_tagged_fields = readers.read_unsigned_varint(buffer)
         for _ in range(num_tagged_fields):
             field_tag = readers.read_unsigned_varint(buffer)
-            readers.read_unsigned_varint(buffer)  # field length
-            field, field_reader, _ = tagged_field_readers[field_tag]
+            field_length = readers.read_unsigned_varint(buffer)
+            try:
+                field, field_reader, _ = tagged_field_readers[field_tag]
+            except KeyError:
+                # Unknown tagged fields are skipped using their size prefix.
+                readers.read_exact(buffer, field_length)
+                continue
             tagged_field_values[field.name] = field_reader(buffer)
 
         # Resolve tagged field implicit defaults.
